@@ -1853,6 +1853,83 @@ func ruleFMT6(c *Ctx) {
 		})
 		c.check(okFind, rule, "template/_Find/pairs", ti.Pos(fd.Pos()), "rows are read as (key, value) pairs: key at +0 compared with the searched key, value at +1 returned, stride 2",
 			"_Find does not read (key, value) pairs with stride 2")
+		// order assumptions: a reader that compares a table key with the searched key by an ordering
+		// operator (bisection, early exit) depends on the order of the pairs in a row; every writer of
+		// rows read through it must then sort its pairs by the very key it emits
+		var ordCmp *ast.BinaryExpr
+		ast.Inspect(fd.Body, func(n ast.Node) bool {
+			be, ok := n.(*ast.BinaryExpr)
+			if !ok || ordCmp != nil {
+				return true
+			}
+			switch be.Op {
+			case token.LSS, token.LEQ, token.GTR, token.GEQ:
+			default:
+				return true
+			}
+			for _, pr := range [][2]ast.Expr{{be.X, be.Y}, {be.Y, be.X}} {
+				if ix, ok := stripConv(ti.Info, pr[0]).(*ast.IndexExpr); ok && usesObj(ti.Info, ix.X) == tblParam && usesObj(ti.Info, stripConv(ti.Info, pr[1])) == keyParam {
+					ordCmp = be
+				}
+			}
+			return true
+		})
+		if ordCmp == nil {
+			c.ok(rule, "template/_Find/order-independent", ti.Pos(fd.Pos()), "_Find compares table keys with the searched key by == only: no order of the pairs inside a row is assumed")
+		} else if w := findParserWriter(c); w == nil {
+			c.unres(rule, "template/_Find/order-assumed", ti.Pos(ordCmp.Pos()), "_Find assumes ordered rows but the row writers were not found")
+		} else {
+			winfo := w.pk.TypesInfo
+			for _, g := range []string{"_actions", "_goto"} {
+				fl := w.closures[g]
+				if fl == nil {
+					continue
+				}
+				// the key field emitted (…​.Index of what) and a sort whose comparator reads the same field of the same type
+				var keyField *types.Var
+				ast.Inspect(fl.Body, func(n ast.Node) bool {
+					call, ok := n.(*ast.CallExpr)
+					if !ok || builtinName(winfo, call) != "append" || len(call.Args) < 2 || keyField != nil {
+						return true
+					}
+					if fv, _ := selField(winfo, stripConv(winfo, call.Args[1])); fv != nil && fv.Name() == "Index" {
+						keyField = fv
+					}
+					return true
+				})
+				sorted := false
+				ast.Inspect(fl.Body, func(n ast.Node) bool {
+					call, ok := n.(*ast.CallExpr)
+					if !ok || len(call.Args) != 2 {
+						return true
+					}
+					full := fullName(calleeFunc(winfo, call))
+					if !sortFuncs[full] && full != "slices.SortedFunc" {
+						return true
+					}
+					cmpLit, ok := call.Args[1].(*ast.FuncLit)
+					if !ok {
+						return true
+					}
+					nKey := 0
+					ast.Inspect(cmpLit.Body, func(k ast.Node) bool {
+						if e, ok := k.(ast.Expr); ok {
+							if fv, _ := selField(winfo, e); fv != nil && fv == keyField {
+								nKey++
+							}
+						}
+						return true
+					})
+					if nKey >= 2 {
+						sorted = true
+					}
+					return true
+				})
+				c.check(sorted && keyField != nil, rule, "codegen.EmitParser/"+g+"/rows-sorted-for-reader", c.Prog.Pos(fl.Pos()),
+					"_Find assumes ordered rows and the writer of "+g+" sorts its pairs by the key it emits",
+					fmt.Sprintf("_Find compares keys with `%s` (%s), i.e. assumes the pairs of a row are ordered by key, but the writer of %s does not sort its pairs by the key field it emits: lookups in long rows miss existing entries", exprString(ordCmp), ti.Pos(ordCmp.Pos()), g))
+			}
+		}
 	}
 }
 
